@@ -202,6 +202,15 @@ theorem cannot_spoof_literal (cfg : Cfg) (hdom : '/' ∉ cfg.domain) (ops : List
       rw [withRes, bareOf_eq_self _ hn] at h1
       rw [h1]
 
+/-- **delivered_from_never_empty**: no stanza is ever delivered with an empty `from` — whether the client left the
+attribute out, sent it empty (`from=''`) or filled it in: it is stamped or checked, and the result is the non-empty
+address of the sender's approved user. -/
+theorem delivered_from_never_empty (cfg : Cfg) (hdom : '/' ∉ cfg.domain) (ops : List (Nat × Ev)) (op : Nat × Ev)
+    (src dst : Nat) (st : Stanza) (h : Out.deliver src dst st ∈ (step cfg (run cfg init ops).1 op).2) :
+    st.sender ≠ [] := by
+  obtain ⟨u, _, hc⟩ := cannot_spoof_literal cfg hdom ops op src dst st h
+  rcases hc with hc | ⟨r, hc⟩ <;> rw [hc] <;> simp [mkBare]
+
 /-! ## 4. the routing tables -/
 
 /-- **tables_reference_open_connections**: after any script, every entry of the two routing tables points to a
@@ -232,7 +241,7 @@ def plainName : List Char := ['P', 'L', 'A', 'I', 'N']
 def goodScript : List (Nat × Ev) :=
   [(1, .openStream ['d']), (1, .auth false plainName (.creds ['m'] ['p']) false), (1, .deliver 0),
    (1, .openStream ['d']), (1, .bind ['r']), (1, .session),
-   (1, .stanza { kind := .message, sender := [], to := ['x', '@', 'd'] })]
+   (1, .stanza { kind := .message, sender := none, to := some ['x', '@', 'd'] })]
 
 /-- … ends authenticated and bound … -/
 example : ((run demoCfg init goodScript).1.conns 1).jid = ['m', '@', 'd', '/', 'r'] := by decide
@@ -269,9 +278,9 @@ example : ((run demoGp init
 
 /-- a spoofed `from` is dropped, the sender's own bare jid is accepted (hypothesis of `cannot_spoof` is met) -/
 example : (step demoCfg (run demoCfg init goodScript).1
-    (1, .stanza { kind := .message, sender := ['v', '@', 'd'], to := ['m', '@', 'd', '/', 'r'] })).2 = [] := by decide
+    (1, .stanza { kind := .message, sender := some ['v', '@', 'd'], to := some ['m', '@', 'd', '/', 'r'] })).2 = [] := by decide
 example : (step demoCfg (run demoCfg init goodScript).1
-    (1, .stanza { kind := .message, sender := ['m', '@', 'd'], to := ['m', '@', 'd', '/', 'r'] })).2 =
+    (1, .stanza { kind := .message, sender := some ['m', '@', 'd'], to := some ['m', '@', 'd', '/', 'r'] })).2 =
     [.routed 1 { kind := .message, sender := ['m', '@', 'd'], to := ['m', '@', 'd', '/', 'r'] },
      .deliver 1 1 { kind := .message, sender := ['m', '@', 'd'], to := ['m', '@', 'd', '/', 'r'] }] := by decide
 
@@ -280,7 +289,7 @@ ends the stream with `not-authorized` and reaches nobody, … -/
 example : (run demoCfg init
     [(0, .openStream ['d']), (0, .auth false plainName (.creds ['m'] ['p']) false), (0, .deliver 0), (0, .bind ['v']),
      (1, .openStream ['d']),
-     (1, .stanza { kind := .message, sender := [], to := ['m', '@', 'd', '/', 'v'] })]).2 =
+     (1, .stanza { kind := .message, sender := none, to := some ['m', '@', 'd', '/', 'v'] })]).2 =
     [.send 0 .hdr, .send 0 (.features false false true (some true)), .authed 0 ['m', '@', 'd'], .send 0 .success1,
      .send 0 (.bindResult ['m', '@', 'd', '/', 'v']), .connected 0 ['m', '@', 'd', '/', 'v'],
      .send 1 .hdr, .send 1 (.features false false true (some true)),
@@ -326,7 +335,7 @@ example : (step demoCfg (run demoCfg init
     [(1, .openStream ['d']), (1, .auth false plainName (.creds ['m'] ['p']) false), (1, .deliver 0),
      (1, .bind ['r']), (1, .bind ['r', '2']), (1, .closeStream),
      (2, .openStream ['d']), (2, .auth false plainName (.creds ['m'] ['p']) false), (2, .deliver 0)]).1
-    (2, .stanza { kind := .message, sender := [], to := ['m', '@', 'd', '/', 'r'] })).2 =
+    (2, .stanza { kind := .message, sender := none, to := some ['m', '@', 'd', '/', 'r'] })).2 =
     [.routed 2 { kind := .message, sender := ['m', '@', 'd'], to := ['m', '@', 'd', '/', 'r'] }] := by decide
 
 /-- two connections of one user, same resource: the second bind kicks the first (conflict), the table entry moves -/
@@ -341,12 +350,24 @@ example : (run demoCfg init
     [(0, .openStream ['d']), (0, .auth false plainName (.creds ['m'] ['p']) false), (0, .deliver 0), (0, .bind ['v']),
      (1, .openStream ['d']), (1, .auth false plainName (.creds ['m'] ['p']) false), (1, .deliver 0),
      (1, .auth false ['X'] .empty false), (1, .sameRead (.bind ['r'])),
-     (1, .sameRead (.stanza { kind := .message, sender := [], to := ['m', '@', 'd', '/', 'v'] }))]).2.drop 10 =
+     (1, .sameRead (.stanza { kind := .message, sender := none, to := some ['m', '@', 'd', '/', 'v'] }))]).2.drop 10 =
     [.send 1 (.failure false .invalidMechanism), .send 1 .streamEnd, .closed 1, .disconnected 1 ['m', '@', 'd']] := by decide
 /-- several elements in one read on an open connection are processed one after the other -/
 example : ((run demoCfg init
     [(1, .openStream ['d']), (1, .auth false plainName (.creds ['m'] ['p']) false), (1, .deliver 0),
-     (1, .bind ['r']), (1, .sameRead (.stanza { kind := .message, sender := [], to := ['x', '@', 'd'] }))]).2.getLast?) =
+     (1, .bind ['r']), (1, .sameRead (.stanza { kind := .message, sender := none, to := some ['x', '@', 'd'] }))]).2.getLast?) =
     some (.routed 1 { kind := .message, sender := ['m', '@', 'd', '/', 'r'], to := ['x', '@', 'd'] }) := by decide
+
+/-- `from` absent, present but empty, and the sender's own bare jid are all delivered with a real address; a user name
+containing a place marker such as "%2" is used literally -/
+example : (step demoCfg (run demoCfg init goodScript).1
+    (1, .stanza { kind := .message, sender := some [], to := some ['m', '@', 'd', '/', 'r'] })).2 =
+    [.routed 1 { kind := .message, sender := ['m', '@', 'd', '/', 'r'], to := ['m', '@', 'd', '/', 'r'] },
+     .deliver 1 1 { kind := .message, sender := ['m', '@', 'd', '/', 'r'], to := ['m', '@', 'd', '/', 'r'] }] := by decide
+example : (step demoCfg (run demoCfg init goodScript).1
+    (1, .stanza { kind := .message, sender := some [' '], to := some ['m', '@', 'd', '/', 'r'] })).2 = [] := by decide
+example : ((run { demoCfg with check := fun u p => if u = ['o', '.', '%', '2'] ∧ p = ['p'] then .ok else .bad } init
+    [(1, .openStream ['d']), (1, .auth false plainName (.creds ['o', '.', '%', '2'] ['p']) false), (1, .deliver 0),
+     (1, .bind ['r'])]).1.conns 1).jid = ['o', '.', '%', '2', '@', 'd', '/', 'r'] := by decide
 
 end Qx.C16
